@@ -562,9 +562,28 @@ def run_entry(ctx, mods, name, fn, scen, layouts):
     ctx.check(not changed, 'purity', f'purity:{short}', f'{name} modified its argument(s) {changed}',
               before=getattr(scen, changed[0]) if changed else None, after=getattr(vc, changed[0]) if changed else None)
     ctx.check(_defaults_digest(mods) == dflt, 'purity', f'purity-default:{short}', f'{name} modified a mutable default argument')
-    st2, r2 = call(ctx, name, fn, scen.view('C'))
-    eq = st1 == st2 and (same(r1, r2, True)[0] if st1 == 'ok' else r1 == r2)
-    ctx.check(eq, 'determinism', f'determinism:{short}', f'{name} returned different results on identical arguments',
+    # the arrays handed back belong to the caller: write into them before calling again (a memo or scratch buffer returned
+    # without a copy would now hand the caller's edits back)
+    scribbled = []
+    if st1 == 'ok':
+        fields = [getattr(vc, k) for k in PURE_FIELDS if isinstance(getattr(vc, k), np.ndarray)] + \
+                 [getattr(scen, k) for k in PURE_FIELDS if isinstance(getattr(scen, k, None), np.ndarray)]
+        for a in install._arrays(r1, []):
+            if 0 < a.size <= 4096 and a.flags.writeable and a.dtype.kind in 'iuf' and not any(np.may_share_memory(a, f) for f in fields):
+                scribbled.append((a, a.copy()))
+    import copy
+    r1_first = copy.deepcopy(r1) if scribbled else r1
+    for a, c in scribbled:
+        a[...] = c * (-3.0) + 7.0 if a.dtype.kind == 'f' else c + 1000003
+    try:
+        st2, r2 = call(ctx, name, fn, scen.view('C'))
+        eq = st1 == st2 and (same(r1_first, r2, True)[0] if st1 == 'ok' else r1 == r2)
+        r2 = copy.deepcopy(r2) if scribbled else r2
+    finally:
+        for a, c in scribbled:
+            a[...] = c
+    ctx.check(eq, 'determinism', f'determinism:{short}', f'{name} returned different results on identical arguments'
+              + (' (the caller had written into the arrays returned by the first call)' if scribbled else ''),
               first=r1, second=r2)
     if st1 == 'ok' and r1 is not None and (not hasattr(r1, '__len__') or len(r1) > 0):
         ctx.nontriv(name, scen.P, scen.K, scen.k, scen.t)
